@@ -5,6 +5,7 @@ import (
 	"encoding/json"
 	"fmt"
 	"net"
+	"net/url"
 	"os"
 	"path/filepath"
 	"sync"
@@ -790,9 +791,19 @@ func (am *AccountingManager) sendAccountingStopSync(ctx context.Context, session
 
 // Persistence methods for crash recovery
 
+// sessionFilePath returns the file a session is persisted in. The session id is chosen by
+// the caller of StartSession and may contain any byte: used as it is, an id with a path
+// separator ("a/b") named a file in a sub-directory that the recovery never reads (the
+// session lost its Stop after a crash), and "../pending" named pending.json itself. The id
+// is therefore escaped into a single path element; ids made of letters, digits and "-_.~"
+// keep the name <id>.json.
+func (am *AccountingManager) sessionFilePath(sessionID string) string {
+	return filepath.Join(am.persistPath, "sessions", url.PathEscape(sessionID)+".json")
+}
+
 // persistActiveSession persists an active session to disk
 func (am *AccountingManager) persistActiveSession(session *AccountingSession) {
-	path := filepath.Join(am.persistPath, "sessions", session.SessionID+".json")
+	path := am.sessionFilePath(session.SessionID)
 
 	// Ensure directory exists
 	if err := os.MkdirAll(filepath.Dir(path), 0755); err != nil {
@@ -827,8 +838,7 @@ func writeFileAtomic(path string, data []byte, perm os.FileMode) error {
 
 // removePersistedSession removes a persisted session file
 func (am *AccountingManager) removePersistedSession(sessionID string) {
-	path := filepath.Join(am.persistPath, "sessions", sessionID+".json")
-	os.Remove(path)
+	os.Remove(am.sessionFilePath(sessionID))
 }
 
 // persistPendingRecords persists pending records to disk
